@@ -317,7 +317,16 @@ def make_net_case(rng):
     if fault == "dup_species" and species:
         species.append(rng.choice(species))
     elif fault == "undeclared":
-        reactions.append({"sub": {"Z": 1}, "prod": {rng.choice(labels): 1}, "label": None})
+        # the stranger on the reactant side, on the product side, or on both (a catalyst / autocatalyst nobody declared)
+        a, b = rng.choice(labels), rng.choice(labels)
+        where = rng.choice(["sub", "prod", "both", "both", "both_only"])
+        sub = {a: 1} if where != "both_only" else {}
+        prod = {b: rng.choice([1, 2])} if where != "both_only" else {}
+        if where in ("sub", "both", "both_only"):
+            sub["Z"] = rng.choice([1, 1, 2])
+        if where in ("prod", "both", "both_only"):
+            prod["Z"] = rng.choice([1, 2, 3])
+        reactions.insert(rng.randrange(len(reactions) + 1), {"sub": sub, "prod": prod, "label": None})
     elif fault == "dup_reaction_label":
         reactions.append({"sub": {labels[0]: 1}, "prod": {}, "label": "dup"})
         reactions.append({"sub": {}, "prod": {labels[0]: 2}, "label": "dup"})
